@@ -20,6 +20,16 @@ def refused(b):
 
 def run(ctx):
     ctx.prove()
+    # string tags (STRING / SSTRING arrays) are outside the tag-store model: judged on the implementation against a list of strings
+    import random
+    nstr = 0
+    for k in range(150 if ctx.thorough else 25):
+        nstr += 1
+        res = L.string_tags_check(random.Random(ctx.seed * 1000 + k), 40)
+        if res is not None:
+            ctx.violation(dict(string_tags=dict(S='STRING[3]', T='SSTRING[2]'), history=res[0][-12:]), res[1])
+            break
+    ctx.coverage['string_tag_histories'] = nstr
     L.logix_check(ctx, 'C05', gen(ctx),
                   rule='as C03 but requests biased to the invalid side: indices/counts at len-1,len,len+1,0, byte offsets not multiple of the '
                        'element size, unknown tags/objects/attributes, request types the tag cannot hold and widest-type values into narrower '
